@@ -19,6 +19,7 @@ use chainfile::liftover::machine;
 use chainfile::liftover::stepthrough;
 use chainfile::liftover::stepthrough::interval_pair::{self, ContiguousIntervalPair};
 use chainfile::liftover::Machine;
+#[allow(unused_imports)]
 use chainfile::{line, reader, Line, Reader};
 use omics::coordinate::interbase::Coordinate;
 use omics::coordinate::interval::interbase::Interval;
@@ -301,16 +302,9 @@ fn show_header(h: &HeaderRecord) -> String {
 }
 
 fn show_perr(e: &interval_pair::Error) -> String {
+    // C15 says "is an error" / "is refused" and nothing about the variant: none is named here
     probe(e);
-    use omics::coordinate::interval::{ClampError, Error as IErr};
-    #[allow(unreachable_patterns)]
-    match e {
-        interval_pair::Error::EntityCountsDontMatch(_, _) => "counts".into(),
-        interval_pair::Error::Interval(IErr::Clamp(ClampError::MismatchedContigs { .. })) => "ctg".into(),
-        interval_pair::Error::Interval(IErr::Clamp(ClampError::MismatchedStrand { .. })) => "strand".into(),
-        interval_pair::Error::Interval(_) => "otherinterval".into(),
-        _ => "other".into(),
-    }
+    "refused".into()
 }
 
 // Error kinds no property speaks about are not part of the compared observable.
@@ -342,6 +336,13 @@ fn show_line(l: &Line) -> String {
     }
 }
 
+#[cfg(not(feature = "names"))]
+fn show_lineerr(e: &line::Error) -> String {
+    probe(e);
+    "err:other".into()
+}
+
+#[cfg(feature = "names")]
 fn show_lineerr(e: &line::Error) -> String {
     probe(e);
     #[allow(unreachable_patterns)]
@@ -361,11 +362,21 @@ fn show_ioerr(e: &io::Error) -> &'static str {
     }
 }
 
+#[cfg(not(feature = "names"))]
+fn show_secerr(e: &sections::Error) -> String {
+    probe(e);
+    match find_io(e) {
+        Some(io) => show_ioerr(io).into(),
+        None => "other".into(),
+    }
+}
+
+#[cfg(feature = "names")]
 fn show_secerr(e: &sections::Error) -> String {
     use sections::{Error as E, ParseError as P};
     probe(e);
     match e {
-        E::Parse(P::AbruptEndInSection) => "abrupt".into(),
+        E::Parse(P::AbruptEndInSection { .. }) => "abrupt".into(),
         E::Parse(P::BlankLineInSection(n)) => format!("blank:{}", n),
         E::Parse(P::DataBetweenSections(d)) => format!("databetween:{}", show_drec(d)),
         E::Parse(P::HeaderInSection(h)) => format!("hdrin:{}", show_header(h)),
@@ -376,10 +387,31 @@ fn show_secerr(e: &sections::Error) -> String {
         E::Parse(P::Reader(reader::Error::Line(line::Error::InvalidAlignmentDataRecord { line, .. }))) => {
             format!("badline:d:{}", show_x(line.as_bytes()))
         }
-        E::Builder(_) => "builder".into(),
+        // a variant this harness does not know (a rewrite may restructure the error types): if an I/O error sits anywhere in its
+        // chain of sources it is the I/O error C08 speaks of, whatever wraps it
         #[allow(unreachable_patterns)]
-        _ => "other".into(),
+        other => match find_io(other) {
+            Some(io) => show_ioerr(io).into(),
+            None => "other".into(),
+        },
     }
+}
+
+/// the first `io::Error` in the chain of `source()`s of an error
+fn find_io<'a>(e: &'a (dyn std::error::Error + 'static)) -> Option<&'a io::Error> {
+    let mut cur: Option<&'a (dyn std::error::Error + 'static)> = Some(e);
+    for _ in 0..16 {
+        match cur {
+            None => return None,
+            Some(x) => {
+                if let Some(io) = x.downcast_ref::<io::Error>() {
+                    return Some(io);
+                }
+                cur = x.source();
+            }
+        }
+    }
+    None
 }
 
 fn show_sterr(e: &stepthrough::Error) -> String {
@@ -388,12 +420,17 @@ fn show_sterr(e: &stepthrough::Error) -> String {
 }
 
 fn show_builderr(e: &machine::builder::Error) -> String {
+    #[allow(unused_imports)]
     use machine::builder::Error as E;
     probe(e);
-    match e {
-        E::InvalidSections(e) => format!("sections:{}", show_secerr(e)),
-        #[allow(unreachable_patterns)]
-        _ => "invalid".into(),
+    #[cfg(feature = "names")]
+    if let E::InvalidSections(e) = e {
+        return format!("sections:{}", show_secerr(e));
+    }
+    // any other (or unknown) variant: an I/O error anywhere in its chain of sources is the reader's
+    match find_io(e) {
+        Some(io) => format!("sections:{}", show_ioerr(io)),
+        None => "invalid".into(),
     }
 }
 
@@ -543,7 +580,9 @@ fn cmd_pline(a: &str) -> String {
                 Ok(Line::Empty) => true,
                 Ok(Line::Header(h)) => direct_h.as_ref().ok() == Some(h),
                 Ok(Line::AlignmentData(d)) => direct_d.as_ref().ok() == Some(d),
+                #[cfg(feature = "names")]
                 Err(line::Error::InvalidHeaderRecord { .. }) => direct_h.is_err(),
+                #[cfg(feature = "names")]
                 Err(line::Error::InvalidAlignmentDataRecord { .. }) => direct_d.is_err(),
                 #[allow(unreachable_patterns)]
                 Err(_) => true,
@@ -874,48 +913,6 @@ fn cmd_build(a: &str, qs: &str) -> String {
     }
 }
 
-fn cmd_dump(a: &str) -> String {
-    let ev = match parse_src(a) {
-        Some(e) => e,
-        None => return "badcase".into(),
-    };
-    let built = catch_unwind(AssertUnwindSafe(|| {
-        machine::Builder::default().try_build_from(Reader::new(Script::new(ev))).map_err(|e| show_builderr(&e))
-    }))
-    .map_err(|_| ());
-    match built {
-        Err(()) => "panic".into(),
-        Ok(Err(e)) => format!("err {}", e),
-        Ok(Ok(m)) => {
-            let mut keys: Vec<&omics::coordinate::Contig> = m.inner().keys().collect();
-            keys.sort_by(|a, b| a.as_str().as_bytes().cmp(b.as_str().as_bytes()));
-            let inner = keys
-                .iter()
-                .map(|k| {
-                    let l = &m.inner()[*k];
-                    format!(
-                        "{}=[{}]",
-                        show_x(k.as_str().as_bytes()),
-                        l.intervals
-                            .iter()
-                            .map(|iv| format!("{}-{}={}", iv.start, iv.stop, show_pair(&iv.val)))
-                            .collect::<Vec<_>>()
-                            .join(",")
-                    )
-                })
-                .collect::<Vec<_>>()
-                .join(" ");
-            let mut out = vec![
-                "ok".to_string(),
-                format!("ref={}", show_dict(m.reference_chromosomes())),
-                format!("qry={}", show_dict(m.query_chromosomes())),
-            ];
-            out.push(inner);
-            out.join(" ")
-        }
-    }
-}
-
 fn cmd_ops(a: &str, ops: &str) -> String {
     let ev = match parse_src(a) {
         Some(e) => e,
@@ -951,10 +948,15 @@ fn cmd_ops(a: &str, ops: &str) -> String {
                         Err(e) => {
                             probe(e);
                             match e {
+                                #[cfg(feature = "names")]
                                 reader::Error::Io(e) => format!("err:{}", show_ioerr(e)),
+                                #[cfg(feature = "names")]
                                 reader::Error::Line(e) => show_lineerr(e),
                                 #[allow(unreachable_patterns)]
-                                _ => "err:other".into(),
+                                other => match find_io(other) {
+                                    Some(io) => format!("err:{}", show_ioerr(io)),
+                                    None => "err:other".into(),
+                                },
                             }
                         }
                     };
@@ -1017,7 +1019,6 @@ fn run_case(line: &str) -> String {
         ("pline", 2) => cmd_pline(t[1]),
         ("sections", 2) => cmd_sections(t[1]),
         ("lines", 2) => cmd_lines(t[1]),
-        ("dump", 2) => cmd_dump(t[1]),
         ("raw", 2) => cmd_raw(t[1]),
         ("seq", 6) => cmd_seq(&t[1..]),
         ("drec", 5) => cmd_drec(t[1], t[2], t[3], t[4]),
